@@ -13,7 +13,7 @@ package parser
 // terms
 
 //@ func (a *Term) ToBiscuit(parameters ParametersMap) (res biscuit.Term, err error)
-//@ serves C10 C14
+//@ serves C10 C14 C19
 //@ requires a != nil
 //@ assumes forall j int :: { a.Set[j] } 0 <= j && j < len(a.Set) ==> a.Set[j] != nil
 //@ modifies nothing
@@ -38,7 +38,7 @@ package parser
 // flattened expression, turns that into an error.
 
 //@ func (e *Expression) ToExpr(expr *biscuit.Expression, parameters ParametersMap)
-//@ serves C10 C14
+//@ serves C10 C14 C19
 //@ requires e != nil && expr != nil
 //@ assumes e.Left != nil && (forall j int :: { e.Right[j] } 0 <= j && j < len(e.Right) ==> e.Right[j] != nil)
 //@ modifies *expr, spare(*expr)
@@ -47,7 +47,7 @@ package parser
 //@ ensures appended_ops_wf: forall k int :: { (*expr)[k] } old(len(*expr)) <= k && k < len(*expr) ==> pOpShape((*expr)[k])
 
 //@ func (e *Expr1) ToExpr(expr *biscuit.Expression, parameters ParametersMap)
-//@ serves C10 C14
+//@ serves C10 C14 C19
 //@ requires e != nil && expr != nil
 //@ assumes e.Left != nil && (forall j int :: { e.Right[j] } 0 <= j && j < len(e.Right) ==> e.Right[j] != nil)
 //@ modifies *expr, spare(*expr)
@@ -56,7 +56,7 @@ package parser
 //@ ensures appended_ops_wf: forall k int :: { (*expr)[k] } old(len(*expr)) <= k && k < len(*expr) ==> pOpShape((*expr)[k])
 
 //@ func (e *Expr2) ToExpr(expr *biscuit.Expression, parameters ParametersMap)
-//@ serves C10 C14
+//@ serves C10 C14 C19
 //@ requires e != nil && expr != nil
 //@ assumes e.Left != nil
 //@ modifies *expr, spare(*expr)
@@ -64,7 +64,7 @@ package parser
 //@ ensures appended_ops_wf: forall k int :: { (*expr)[k] } old(len(*expr)) <= k && k < len(*expr) ==> pOpShape((*expr)[k])
 
 //@ func (e *Expr3) ToExpr(expr *biscuit.Expression, parameters ParametersMap)
-//@ serves C10 C14
+//@ serves C10 C14 C19
 //@ requires e != nil && expr != nil
 //@ assumes e.Left != nil && (forall j int :: { e.Right[j] } 0 <= j && j < len(e.Right) ==> e.Right[j] != nil)
 //@ modifies *expr, spare(*expr)
@@ -73,7 +73,7 @@ package parser
 //@ ensures appended_ops_wf: forall k int :: { (*expr)[k] } old(len(*expr)) <= k && k < len(*expr) ==> pOpShape((*expr)[k])
 
 //@ func (e *Expr4) ToExpr(expr *biscuit.Expression, parameters ParametersMap)
-//@ serves C10 C14
+//@ serves C10 C14 C19
 //@ requires e != nil && expr != nil
 //@ assumes e.Left != nil && (forall j int :: { e.Right[j] } 0 <= j && j < len(e.Right) ==> e.Right[j] != nil)
 //@ modifies *expr, spare(*expr)
@@ -82,7 +82,7 @@ package parser
 //@ ensures appended_ops_wf: forall k int :: { (*expr)[k] } old(len(*expr)) <= k && k < len(*expr) ==> pOpShape((*expr)[k])
 
 //@ func (e *Expr5) ToExpr(expr *biscuit.Expression, parameters ParametersMap)
-//@ serves C10 C14
+//@ serves C10 C14 C19
 //@ requires e != nil && expr != nil
 //@ assumes e.Expr6 != nil
 //@ modifies *expr, spare(*expr)
@@ -91,7 +91,7 @@ package parser
 //@ ensures negation_last: e.Operator != nil ==> len(*expr) > old(len(*expr)) && (*expr)[len(*expr)-1] is biscuit.UnaryOp && (*expr)[len(*expr)-1].(biscuit.UnaryOp) == biscuit.UnaryNegate
 
 //@ func (e *Expr6) ToExpr(expr *biscuit.Expression, parameters ParametersMap)
-//@ serves C10 C14
+//@ serves C10 C14 C19
 //@ requires e != nil && expr != nil
 //@ assumes e.Left != nil && (forall j int :: { e.Right[j] } 0 <= j && j < len(e.Right) ==> e.Right[j] != nil)
 //@ modifies *expr, spare(*expr)
@@ -100,7 +100,7 @@ package parser
 //@ ensures appended_ops_wf: forall k int :: { (*expr)[k] } old(len(*expr)) <= k && k < len(*expr) ==> pOpShape((*expr)[k])
 
 //@ func (e *ExprTerm) ToExpr(expr *biscuit.Expression, parameters ParametersMap)
-//@ serves C10 C14
+//@ serves C10 C14 C19
 //@ requires e != nil && expr != nil
 //@ modifies *expr, spare(*expr)
 //@ ensures appends_only: len(*expr) >= old(len(*expr)) && ((arr(*expr) == old(arr(*expr)) && off(*expr) == old(off(*expr)) && cap(*expr) == old(cap(*expr))) || fresh(arr(*expr))) && (forall k int :: { (*expr)[k] } 0 <= k && k < old(len(*expr)) ==> (*expr)[k] == old((*expr)[k]))
@@ -109,7 +109,7 @@ package parser
 //@ ensures value: e.Term != nil ==> len(*expr) == old(len(*expr)) + 1 && (*expr)[len(*expr)-1] is biscuit.Value
 
 //@ func (e *OpExpr1) ToExpr(expr *biscuit.Expression, parameters ParametersMap)
-//@ serves C10 C14
+//@ serves C10 C14 C19
 //@ requires e != nil && expr != nil
 //@ assumes e.Operator == OpOr && e.Expr1 != nil
 //@ modifies *expr, spare(*expr)
@@ -118,7 +118,7 @@ package parser
 //@ ensures operator_last: len(*expr) > old(len(*expr)) && isOpOf((*expr)[len(*expr)-1], e.Operator)
 
 //@ func (e *OpExpr2) ToExpr(expr *biscuit.Expression, parameters ParametersMap)
-//@ serves C10 C14
+//@ serves C10 C14 C19
 //@ requires e != nil && expr != nil
 //@ assumes e.Operator == OpAnd && e.Expr2 != nil
 //@ modifies *expr, spare(*expr)
@@ -127,7 +127,7 @@ package parser
 //@ ensures operator_last: len(*expr) > old(len(*expr)) && isOpOf((*expr)[len(*expr)-1], e.Operator)
 
 //@ func (e *OpExpr3) ToExpr(expr *biscuit.Expression, parameters ParametersMap)
-//@ serves C10 C14
+//@ serves C10 C14 C19
 //@ requires e != nil && expr != nil
 //@ assumes opLevel3(e.Operator) && e.Expr3 != nil
 //@ modifies *expr, spare(*expr)
@@ -136,7 +136,7 @@ package parser
 //@ ensures operator_last: len(*expr) > old(len(*expr)) && isOpOf((*expr)[len(*expr)-1], e.Operator)
 
 //@ func (e *OpExpr4) ToExpr(expr *biscuit.Expression, parameters ParametersMap)
-//@ serves C10 C14
+//@ serves C10 C14 C19
 //@ requires e != nil && expr != nil
 //@ assumes (e.Operator == OpAdd || e.Operator == OpSub) && e.Expr4 != nil
 //@ modifies *expr, spare(*expr)
@@ -145,7 +145,7 @@ package parser
 //@ ensures operator_last: len(*expr) > old(len(*expr)) && isOpOf((*expr)[len(*expr)-1], e.Operator)
 
 //@ func (e *OpExpr5) ToExpr(expr *biscuit.Expression, parameters ParametersMap)
-//@ serves C10 C14
+//@ serves C10 C14 C19
 //@ requires e != nil && expr != nil
 //@ assumes (e.Operator == OpMul || e.Operator == OpDiv) && e.Expr5 != nil
 //@ modifies *expr, spare(*expr)
@@ -154,7 +154,7 @@ package parser
 //@ ensures operator_last: len(*expr) > old(len(*expr)) && isOpOf((*expr)[len(*expr)-1], e.Operator)
 
 //@ func (e *OpExpr7) ToExpr(expr *biscuit.Expression, parameters ParametersMap)
-//@ serves C10 C14
+//@ serves C10 C14 C19
 //@ requires e != nil && expr != nil
 //@ assumes opLevel7(e.Operator)
 //@ modifies *expr, spare(*expr)
@@ -167,7 +167,7 @@ package parser
 // the operator table isOpOf is proved for the operators that level can capture.
 
 //@ func checkExpression(expr biscuit.Expression) (err error)
-//@ serves C10 C14
+//@ serves C10 C14 C19
 //@ modifies nothing
 //@ loop 0 invariant forall k int :: { expr[k] } 0 <= k && k < #i ==> (expr[k] is biscuit.Value ==> expr[k].(biscuit.Value).Term != nil)
 //@ ensures no_missing_terms: err == nil ==> (forall k int :: { expr[k] } 0 <= k && k < len(expr) ==> (expr[k] is biscuit.Value ==> expr[k].(biscuit.Value).Term != nil))
@@ -176,7 +176,7 @@ package parser
 // predicates, rules, checks, policies, blocks
 
 //@ func (p *Predicate) ToBiscuit(parameters ParametersMap) (res *biscuit.Predicate, err error)
-//@ serves C10 C14
+//@ serves C10 C14 C19
 //@ requires p != nil
 //@ assumes p.Name != nil && (forall j int :: { p.IDs[j] } 0 <= j && j < len(p.IDs) ==> p.IDs[j] != nil)
 //@ modifies nothing
@@ -185,7 +185,7 @@ package parser
 //@ ensures denotes: err == nil ==> fresh(res) && res.Name == *p.Name && len(res.IDs) == len(p.IDs) && pTermsNonNil(res.IDs)
 
 //@ func (r *Rule) ToBiscuit(parameters ParametersMap) (res *biscuit.Rule, err error)
-//@ serves C10 C14
+//@ serves C10 C14 C19
 //@ requires r != nil
 //@ assumes r.Head != nil && astElemsOK(r.Body)
 //@ modifies nothing
@@ -194,7 +194,7 @@ package parser
 //@ ensures wf: err == nil ==> fresh(res) && pRuleWF(*res)
 
 //@ func (r *CheckQuery) ToBiscuit(parameters ParametersMap) (res *biscuit.Rule, err error)
-//@ serves C10 C14
+//@ serves C10 C14 C19
 //@ requires r != nil
 //@ assumes astElemsOK(r.Body)
 //@ modifies nothing
@@ -203,7 +203,7 @@ package parser
 //@ ensures wf: err == nil ==> fresh(res) && pRuleWF(*res) && res.Head.Name == "query" && len(res.Head.IDs) == 0
 
 //@ func (c *Check) ToBiscuit(parameters ParametersMap) (res *biscuit.Check, err error)
-//@ serves C10 C14
+//@ serves C10 C14 C19
 //@ requires c != nil
 //@ assumes astQueriesOK(c.Queries)
 //@ modifies nothing
@@ -212,7 +212,7 @@ package parser
 //@ ensures or_as_alternatives: err == nil ==> fresh(res) && len(res.Queries) == len(c.Queries) && pRulesWF(res.Queries)
 
 //@ func (p *Policy) ToBiscuit(parameters ParametersMap) (res *biscuit.Policy, err error)
-//@ serves C10 C14
+//@ serves C10 C14 C19
 //@ requires p != nil
 //@ assumes (p.Allow != nil ==> astQueriesOK(p.Allow.Queries)) && (p.Deny != nil ==> astQueriesOK(p.Deny.Queries))
 //@ modifies nothing
@@ -223,7 +223,7 @@ package parser
 //@ ensures wf: err == nil ==> fresh(res) && pRulesWF(res.Queries)
 
 //@ func (b *Block) ToBiscuit(parameters ParametersMap) (res *biscuit.ParsedBlock, err error)
-//@ serves C10 C14
+//@ serves C10 C14 C19
 //@ requires b != nil
 //@ assumes forall j int :: { b.Body[j] } 0 <= j && j < len(b.Body) ==> astBlockElemOK(b.Body[j])
 //@ modifies nothing
@@ -232,7 +232,7 @@ package parser
 //@ ensures wf: err == nil ==> fresh(res) && pFactsWF(res.Facts) && pRulesWF(res.Rules) && pChecksWF(res.Checks)
 
 //@ func (b *Authorizer) ToBiscuit(parameters ParametersMap) (res *biscuit.ParsedAuthorizer, err error)
-//@ serves C10 C14
+//@ serves C10 C14 C19
 //@ requires b != nil
 //@ assumes forall j int :: { b.Body[j] } 0 <= j && j < len(b.Body) ==> b.Body[j] != nil && (b.Body[j].BlockElement != nil ==> astBlockElemOK(b.Body[j].BlockElement)) && (b.Body[j].Policy != nil ==> (b.Body[j].Policy.Allow != nil ==> astQueriesOK(b.Body[j].Policy.Allow.Queries)) && (b.Body[j].Policy.Deny != nil ==> astQueriesOK(b.Body[j].Policy.Deny.Queries)))
 //@ modifies nothing
@@ -244,72 +244,72 @@ package parser
 // entry points (parser.go): participle builds the tree, the functions above convert it
 
 //@ func (p *parser) Fact(fact string, parameters ParametersMap) (res biscuit.Fact, err error)
-//@ serves C10 C14
+//@ serves C10 C14 C19
 //@ requires p != nil && p.factParser != nil
 //@ modifies nothing
 //@ loop 0 invariant forall k int :: { pred.IDs[k] } 0 <= k && k < #i ==> !(pred.IDs[k] is biscuit.Variable)
 //@ ensures no_variables_in_facts: err == nil ==> (forall k int :: { res.Predicate.IDs[k] } 0 <= k && k < len(res.Predicate.IDs) ==> res.Predicate.IDs[k] != nil && !(res.Predicate.IDs[k] is biscuit.Variable))
 
 //@ func (p *parser) Rule(rule string, parameters ParametersMap) (res biscuit.Rule, err error)
-//@ serves C10 C14
+//@ serves C10 C14 C19
 //@ requires p != nil && p.ruleParser != nil
 //@ modifies nothing
 //@ ensures wf: err == nil ==> pRuleWF(res)
 
 //@ func (p *parser) Check(check string, parameters ParametersMap) (res biscuit.Check, err error)
-//@ serves C10 C14
+//@ serves C10 C14 C19
 //@ requires p != nil && p.checkParser != nil
 //@ modifies nothing
 //@ loop 0 invariant len(queries) == len(parsed.Queries) && fresh(arr(queries)) && (forall k int :: { queries[k] } 0 <= k && k < #i ==> pRuleWF(queries[k]))
 //@ ensures wf: err == nil ==> pRulesWF(res.Queries)
 
 //@ func (p *parser) Policy(policy string, parameters ParametersMap) (res biscuit.Policy, err error)
-//@ serves C10 C14
+//@ serves C10 C14 C19
 //@ requires p != nil && p.policyParser != nil
 //@ modifies nothing
 //@ loop 0 invariant len(queries) == len(parsedQueries) && fresh(arr(queries)) && (forall k int :: { queries[k] } 0 <= k && k < #i ==> pRuleWF(queries[k]))
 //@ ensures wf: err == nil ==> pRulesWF(res.Queries)
 
 //@ func (p *parser) Block(block string, parameters ParametersMap) (res biscuit.ParsedBlock, err error)
-//@ serves C10 C14
+//@ serves C10 C14 C19
 //@ requires p != nil && p.blockParser != nil
 //@ modifies nothing
 //@ ensures wf: err == nil ==> pFactsWF(res.Facts) && pRulesWF(res.Rules) && pChecksWF(res.Checks)
 
 //@ func (p *parser) Authorizer(authorizer string, parameters ParametersMap) (res biscuit.ParsedAuthorizer, err error)
-//@ serves C10 C14
+//@ serves C10 C14 C19
 //@ requires p != nil && p.authorizerParser != nil
 //@ modifies nothing
 //@ ensures wf: err == nil ==> pFactsWF(res.Block.Facts) && pRulesWF(res.Block.Rules) && pChecksWF(res.Block.Checks) && pPoliciesWF(res.Policies)
 
 //@ func New() (res Parser)
-//@ serves C10 C14
+//@ serves C10 C14 C19
 //@ modifies nothing
 //@ ensures res is *parser && res.(*parser) != nil && fresh(res.(*parser)) && res.(*parser).factParser != nil && res.(*parser).ruleParser != nil && res.(*parser).checkParser != nil && res.(*parser).policyParser != nil && res.(*parser).blockParser != nil && res.(*parser).authorizerParser != nil
 
 //@ func FromStringFactWithParams(input string, parameters ParametersMap) (res biscuit.Fact, err error)
-//@ serves C10 C14
+//@ serves C10 C14 C19
 //@ modifies nothing
 
 //@ func FromStringRuleWithParams(input string, parameters ParametersMap) (res biscuit.Rule, err error)
-//@ serves C10 C14
+//@ serves C10 C14 C19
 //@ modifies nothing
 //@ ensures wf: err == nil ==> pRuleWF(res)
 
 //@ func FromStringCheckWithParams(input string, parameters ParametersMap) (res biscuit.Check, err error)
-//@ serves C10 C14
+//@ serves C10 C14 C19
 //@ modifies nothing
 //@ ensures wf: err == nil ==> pRulesWF(res.Queries)
 
 //@ func FromStringPolicyWithParams(input string, parameters ParametersMap) (res biscuit.Policy, err error)
-//@ serves C10 C14
+//@ serves C10 C14 C19
 //@ modifies nothing
 //@ ensures wf: err == nil ==> pRulesWF(res.Queries)
 
 //@ func FromStringBlockWithParams(input string, parameters ParametersMap) (res biscuit.ParsedBlock, err error)
-//@ serves C10 C14
+//@ serves C10 C14 C19
 //@ modifies nothing
 
 //@ func FromStringAuthorizerWithParams(input string, parameters ParametersMap) (res biscuit.ParsedAuthorizer, err error)
-//@ serves C10 C14
+//@ serves C10 C14 C19
 //@ modifies nothing
